@@ -147,7 +147,8 @@ func profileFor(prop string) Profile {
 	case "C03":
 		p.PAuto, p.PCordon, p.PAsgEdit, p.PForceTaint = 0.35, 0.4, 0.4, 0.35
 	case "C04":
-		p.PMaxBelow, p.PAuto, p.PAsgEdit = 0.6, 0.15, 0.3
+		p.PMaxBelow, p.PAuto, p.PAsgEdit, p.PBigGroup, p.PFleet = 0.6, 0.15, 0.3, 0.08, 0.35
+		p.FaultBias = map[string]float64{OpAttach: 5}
 	case "C05", "C06":
 		p.EdgeBias, p.PDry, p.PGlobalDry, p.POdd, p.PResize, p.PNodeLoss, p.ShortCool = 0.5, 0.02, 0, 0.02, 0.2, 0.35, 0.8
 	case "C07":
@@ -165,7 +166,7 @@ func profileFor(prop string) Profile {
 	case "C12":
 		p.Groups, p.PDefault, p.POdd, p.PStray, p.ShortGrace, p.PFleet = []int{0, 5, 5}, 0.5, 0.3, 0.45, 0.9, 0.4
 	case "C13":
-		p.POdd, p.PDry = 0.3, 0.02
+		p.POdd, p.PDry, p.PResize = 0.3, 0.02, 0.25
 	case "C15":
 		p.PExtTaint, p.Interleave, p.OperatorP, p.PForeignTaint = 0.5, 0.1, 0.15, 0.6
 	case "C17", "C18":
